@@ -761,6 +761,9 @@ func cmdSetup() int {
 	var mu sync.Mutex
 	for _, f := range files {
 		id := strings.TrimSuffix(filepath.Base(f), ".json")
+		if !setupReady()[id] {
+			continue
+		}
 		wg.Add(1)
 		go func(id string) {
 			defer wg.Done()
@@ -790,4 +793,14 @@ func cmdSetup() int {
 		return 2
 	}
 	return 0
+}
+
+func setupReady() map[string]bool {
+	ready := map[string]bool{}
+	if buf, err := os.ReadFile(filepath.Join(verifDir, "checks", "READY.txt")); err == nil {
+		for _, f := range strings.Fields(string(buf)) {
+			ready[f] = true
+		}
+	}
+	return ready
 }
